@@ -180,3 +180,46 @@ func Verif_C08_two_sessions() {
 	wk.cancel()
 	verifapi.Quiesce()
 }
+
+// Verif_C08_cancel_while_connecting: remote work was submitted to a node that is slow to answer - the
+// daemon's background connection attempt is still in flight - and a cancel (or release) for that unit
+// arrives. The command is answered, and afterwards list and status commands on other sessions are
+// answered too: nothing is left waiting for a lock that the cancel holds.
+func Verif_C08_cancel_while_connecting() {
+	dir := verifapi.TempDir()
+	wk := verifWorkceptor(dir)
+	wk.nc.slowDial = true
+	verifapi.FixRandom("unit0097")
+	unit, err := wk.w.AllocateRemoteUnit("R", "echo", "tls", "", false, map[string]string{})
+	verifapi.Assert("allocated", err == nil)
+	go func() { _ = unit.Start() }()
+	verifapi.Quiesce()
+	verifapi.Assert("a-connection-attempt-is-in-flight", *wk.nc.dials >= 1)
+	sub := []string{"cancel", "release", "force-release"}[verifapi.Choose(3)]
+	answered := make(chan error, 1)
+	go func() {
+		_, cerr := wk.verifCommand(verifNewCFO("unix"), map[string]interface{}{"command": "work", "subcommand": sub, "unitid": unit.ID()})
+		answered <- cerr
+	}()
+	verifapi.Quiesce()
+	verifapi.Cover("cancel-sent-while-connecting")
+	select {
+	case <-answered:
+	default:
+		verifapi.Assert("cancel-of-a-connecting-unit-is-answered", false)
+	}
+	listed := make(chan error, 1)
+	go func() {
+		_, lerr := wk.verifCommand(verifNewCFO("tcp"), map[string]interface{}{"command": "work", "subcommand": "list"})
+		listed <- lerr
+	}()
+	verifapi.Quiesce()
+	select {
+	case lerr := <-listed:
+		verifapi.Assert("list-still-answered-afterwards", lerr == nil)
+	default:
+		verifapi.Assert("list-still-answered-afterwards", false)
+	}
+	wk.cancel()
+	verifapi.Quiesce()
+}
